@@ -27,6 +27,9 @@ pub struct Desc {
     /// NAT emulation: plain-port connections land on shard 0, a shard-aware-port connection asking for shard i is
     /// bound to shard (nr - i) % nr, so the shard a connection was asked for differs from the one the server reports
     pub nat: bool,
+    /// after the normal phase of the preference-less session the last sharded node "restarts" three times with other
+    /// sharding parameters (msb_ignore changed, shard count changed, not sharded) and the cell keys are re-run
+    pub restart: bool,
 }
 
 impl Desc {
@@ -43,6 +46,7 @@ impl Desc {
             "keys_per_cell": self.keys_per_cell,
             "repeats": self.repeats,
             "nat": self.nat,
+            "restart": self.restart,
         })
     }
     pub fn from_json(v: &Value) -> Option<Desc> {
@@ -55,16 +59,18 @@ impl Desc {
             keys_per_cell: v["keys_per_cell"].as_u64().unwrap_or(1) as usize,
             repeats: v["repeats"].as_u64().unwrap_or(1) as usize,
             nat: v["nat"].as_bool().unwrap_or(false),
+            restart: v["restart"].as_bool().unwrap_or(false),
         })
     }
     pub fn label(&self) -> String {
         let sh: Vec<String> = self.shards.iter().map(|s| s.map(|(n, m)| format!("{n}/{m}")).unwrap_or_else(|| "U".into())).collect();
-        format!("dcs={:?} shards=[{}] vn={} pool={} tablets={}{}", self.dc_sizes, sh.join(","), self.vnodes, if self.per_shard { "per-shard" } else { "per-host" }, self.tablets, if self.nat { " nat" } else { "" })
+        format!("dcs={:?} shards=[{}] vn={} pool={} tablets={}{}", self.dc_sizes, sh.join(","), self.vnodes, if self.per_shard { "per-shard" } else { "per-host" }, self.tablets, if self.nat { " nat" } else if self.restart { " +restarts" } else { "" })
     }
     fn seed(&self) -> u64 {
         let mut j = self.to_json();
         j.as_object_mut().unwrap().remove("repeats");
         j.as_object_mut().unwrap().remove("keys_per_cell");
+        j.as_object_mut().unwrap().remove("restart");
         vcore::fnv64(j.to_string().as_bytes())
     }
 }
@@ -99,7 +105,7 @@ pub struct Layout {
     pub ring: Ring,
     pub dcs: Vec<String>,
     pub keyspaces: Vec<KsCfg>,
-    /// two generations of the tablet map of `kt.t` (second = after "migration"); empty when tablets are off
+    /// generations of the tablet map of `kt.t` (second = every tablet migrated, third = first two tablets merged); empty when tablets are off
     pub tablet_maps: Vec<Vec<TabletCfg>>,
 }
 
@@ -172,6 +178,27 @@ pub fn build_layout(desc: &Desc) -> Layout {
                 first = last;
             }
             tablet_maps.push(map);
+        }
+        // third generation ("tablet merge"): the first two tablets of the second generation become one tablet with
+        // other replicas; the client knows (a,b] and (b,c] and then learns (a,c]
+        if desc.tablets >= 2 {
+            let g1 = tablet_maps[1].clone();
+            let generation = 3usize; // offset 3: for n >= 3 the merged tablet's replicas differ from both tablets it replaces
+            let (a, b) = (generation % n, (generation + 1) % n);
+            let mut replicas = Vec::new();
+            for (k, node) in [a, b].into_iter().enumerate() {
+                if replicas.iter().any(|(x, _)| *x == node) {
+                    continue;
+                }
+                let shard = match desc.shards[node] {
+                    Some((nr, _)) => ((k + generation) % nr as usize) as i32,
+                    None => 0,
+                };
+                replicas.push((node, shard));
+            }
+            let mut g2 = vec![TabletCfg { first_exclusive: g1[0].first_exclusive, last: g1[1].last, replicas }];
+            g2.extend(g1[2..].iter().cloned());
+            tablet_maps.push(g2);
         }
     }
     Layout { desc: desc.clone(), nodes, ring, dcs, keyspaces, tablet_maps }
@@ -456,7 +483,7 @@ pub fn enumerate(thorough: bool) -> Vec<Desc> {
                         continue; // tablets exist on ScyllaDB nodes only
                     }
                     for vnodes in if thorough { vec![1usize, 2, 3, 4] } else { vec![1usize, 2, 3] } {
-                        out.push(Desc { dc_sizes: dcs.clone(), shards: shards.clone(), vnodes, per_shard, tablets, keys_per_cell, repeats, nat: false });
+                        out.push(Desc { dc_sizes: dcs.clone(), shards: shards.clone(), vnodes, per_shard, tablets, keys_per_cell, repeats, nat: false, restart: vnodes == 2 && shards.iter().any(|x| x.is_some()) });
                     }
                 }
             }
@@ -467,7 +494,7 @@ pub fn enumerate(thorough: bool) -> Vec<Desc> {
         let n: usize = dcs.iter().sum();
         for nr in if thorough { vec![3u16, 8] } else { vec![3u16] } {
             for tablets in [0usize, 3] {
-                out.push(Desc { dc_sizes: dcs.clone(), shards: vec![Some((nr, 12)); n], vnodes: 2, per_shard: true, tablets, keys_per_cell, repeats, nat: true });
+                out.push(Desc { dc_sizes: dcs.clone(), shards: vec![Some((nr, 12)); n], vnodes: 2, per_shard: true, tablets, keys_per_cell, repeats, nat: true, restart: false });
             }
         }
     }
